@@ -28,7 +28,7 @@ package nbio
 //@ pred pend(c *Conn) := c.gTail - c.gHead
 
 // engine wiring, fixed when the connection is registered with its poller
-//@ pred Wired(c *Conn) := c.p != nil && c.p.g != nil && c.p.g.Config.BodyAllocator != nil
+//@ pred Wired(c *Conn) := c.p != nil && c.p.g != nil && c.p.g.Config.BodyAllocator != nil && c.p.g.isOneshot == cfgOneshot(c.p.g)
 
 // ---- the write queue
 //@ pred BufEntry(t *toWrite) := t.buf != nil && liveP[t.buf] && t.fd == 0 && 0 <= t.offset && t.offset < len(*t.buf)
@@ -45,8 +45,8 @@ package nbio
 
 //@ func (*Conn).overflow
 //@   props C17
-//@   safety index slice nil div assert panic make
-//@   requires c.p != nil && c.p.g != nil
+//@   safety index slice nil div assert panic make lockset
+//@   requires holds(c.mux) && c.p != nil && c.p.g != nil
 //@   ensures def: result == (c.p.g.Config.MaxWriteBufferSize > 0 && c.left + n > c.p.g.Config.MaxWriteBufferSize)   // prop C17
 
 //@ func (*Conn).releaseToWrite
@@ -59,8 +59,8 @@ package nbio
 
 //@ func (*Conn).newToWriteBuf
 //@   props C01 C17 C11
-//@   safety index slice nil div assert panic make
-//@   requires Wired(c) && QueueInv(c) && len(buf) > 0
+//@   safety index slice nil div assert panic make lockset
+//@   requires holds(c.mux) && Wired(c) && QueueInv(c) && len(buf) > 0
 //@   ensures left: c.left == old(c.left) + len(buf)                                         // prop C17
 //@   ensures pend: pend(c) == old(pend(c)) + len(buf)                                       // prop C01
 //@   ensures inv: QueueInv(c)                                                               // prop C01 C11
@@ -93,8 +93,8 @@ package nbio
 
 //@ func (*Conn).write
 //@   props C01 C17
-//@   safety index slice nil div assert panic make
-//@   requires Wired(c) && QueueInv(c) && isStream(c)
+//@   safety index slice nil div assert panic make lockset
+//@   requires holds(c.mux) && Wired(c) && QueueInv(c) && isStream(c)
 //@   ensures ret: result1 == nil ==> result0 == len(b)                                                          // prop C01
 //@   ensures acct: result1 == nil ==> kSent[c.fd] + pend(c) == old(kSent[c.fd]) + old(pend(c)) + len(b)         // prop C01
 //@   ensures order: old(len(c.writeList)) > 0 ==> kSent[c.fd] == old(kSent[c.fd])                               // prop C01
@@ -110,25 +110,78 @@ package nbio
 // kEv[fd]      epoll event mask registered for fd (-1: not registered); advanced only by the trusted EpollCtl contract
 // tArmed[t]    runtime timer t is armed; tDur[t] its duration
 //@ ghost kEv : (Array Int Int)
+//@ ghost kMods : (Array Int Int)
 //@ ghost tArmed : (Array Int Bool)
 //@ ghost tDur : (Array Int Int)
 
 // ---- the connection monitor: everything the mutex protects, and what holds whenever it is free
-//@ protected Conn by mux: left, writeList, closed, isWAdded, closeErr, rTimer, wTimer, gHead, gTail, gBHead, gBTail, gSeq0, gAcc, kSent[fd], kEv[fd], elems(writeList), toWrite.buf, toWrite.offset, toWrite.fd, toWrite.remain, toWrite.gEnd, toWrite.gBEnd, toWrite.gSeq
+//@ protected Conn by mux: left, writeList, closed, isWAdded, closeErr, rTimer, wTimer, gHead, gTail, gBHead, gBTail, gSeq0, gAcc, kSent[fd], kEv[fd], kMods[fd], elems(writeList), toWrite.buf, toWrite.offset, toWrite.fd, toWrite.remain, toWrite.gEnd, toWrite.gBEnd, toWrite.gSeq
 //@ moninv queue: !self.closed ==> QueueInv(self)                                          // prop C01 C11 C17
 //@ moninv acct: !self.closed ==> self.gAcc == kSent[self.fd] + pend(self)                 // prop C01
+//@ moninv arm: !self.closed ==> ArmInv(self)                                             // prop C04
 //@ moninv bound: !self.closed && self.p != nil && self.p.g != nil && maxw(self) > 0 ==> self.left <= maxw(self)   // prop C17
+
+// ---- write interest (C04): the flag the library keeps must agree with what epoll has, and a backlog needs it armed
+//@ pred evOut(x int) := x & 4 != 0
+//@ pred cfgET(g *Engine) := g.Config.EpollMod == EPOLLET
+//@ pred cfgOneshot(g *Engine) := g.Config.EpollMod == EPOLLET && g.Config.EPOLLONESHOT == EPOLLONESHOT
+// level-triggered: flag <=> EPOLLOUT registered; edge-triggered without one-shot: EPOLLOUT is always registered
+//@ pred ArmInv(c *Conn) := (len(c.writeList) > 0 ==> c.isWAdded) && (c.p != nil && c.p.g != nil && kEv[c.fd] >= 0 ==> (!(cfgET(c.p.g) && !cfgOneshot(c.p.g)) ==> c.isWAdded == evOut(kEv[c.fd])) && (cfgET(c.p.g) && !cfgOneshot(c.p.g) ==> evOut(kEv[c.fd])))
+
+//@ func (*poller).setRead
+//@   props C04
+//@   safety index slice nil div assert panic make
+//@   requires p.g != nil
+//@   ensures fail: result != nil ==> kEv[fd] == old(kEv[fd]) && kMods[fd] == old(kMods[fd])                                              // prop C04
+//@   ensures lt: result == nil && !cfgET(p.g) ==> kEv[fd] >= 0 && !evOut(kEv[fd]) && kMods[fd] == old(kMods[fd]) + 1                      // prop C04
+//@   ensures oneshot: result == nil && cfgOneshot(p.g) ==> kEv[fd] >= 0 && !evOut(kEv[fd]) && kMods[fd] == old(kMods[fd]) + 1             // prop C04
+//@   ensures etadd: result == nil && cfgET(p.g) && !cfgOneshot(p.g) && op == 1 ==> kEv[fd] >= 0 && evOut(kEv[fd])                          // prop C04
+//@   ensures etmod: cfgET(p.g) && !cfgOneshot(p.g) && op != 1 ==> result == nil && kEv[fd] == old(kEv[fd])                                 // prop C04
+//@   ensures ok: (op == 3 && old(kEv[fd]) >= 0) || (op == 1 && old(kEv[fd]) < 0) ==> result == nil                                         // prop C04
+//@   ensures notreg: op == 3 && old(kEv[fd]) < 0 ==> kEv[fd] == old(kEv[fd])                                                                // prop C04
+//@   assigns kEv[fd], kMods[fd], allocates
+
+//@ func (*poller).setReadWrite
+//@   props C04
+//@   safety index slice nil div assert panic make
+//@   requires p.g != nil
+//@   ensures fail: result != nil ==> kEv[fd] == old(kEv[fd]) && kMods[fd] == old(kMods[fd])                                              // prop C04
+//@   ensures armed: result == nil && !(cfgET(p.g) && !cfgOneshot(p.g) && op != 1) ==> kEv[fd] >= 0 && evOut(kEv[fd]) && kMods[fd] == old(kMods[fd]) + 1   // prop C04
+//@   ensures etmod: cfgET(p.g) && !cfgOneshot(p.g) && op != 1 ==> result == nil && kEv[fd] == old(kEv[fd])                                 // prop C04
+//@   ensures ok: (op == 3 && old(kEv[fd]) >= 0) || (op == 1 && old(kEv[fd]) < 0) ==> result == nil                                         // prop C04
+//@   ensures notreg: op == 3 && old(kEv[fd]) < 0 ==> kEv[fd] == old(kEv[fd])                                                                // prop C04
+//@   assigns kEv[fd], kMods[fd], allocates
+
+//@ func (*poller).addRead
+//@   inline
+//@ func (*poller).resetRead
+//@   inline
+//@ func (*poller).modWrite
+//@   inline
+//@ func (*poller).addReadWrite
+//@   inline
 
 //@ func (*Conn).modWrite
 //@   props C04
-//@   requires c.p != nil && c.p.g != nil
-//@   assigns c.isWAdded, kEv[c.fd], allocates
-//@   trusted
+//@   safety index slice nil div assert panic make lockset
+//@   requires holds(c.mux) && c.p != nil && c.p.g != nil
+//@   ensures noop: old(c.closed || c.isWAdded) ==> c.isWAdded == old(c.isWAdded) && kEv[c.fd] == old(kEv[c.fd]) && kMods[c.fd] == old(kMods[c.fd])   // prop C04
+//@   ensures flag: old(!c.closed && !c.isWAdded) ==> c.isWAdded                                                                          // prop C04
+//@   ensures arm: old(!c.closed && !c.isWAdded && kEv[c.fd] >= 0) && !(cfgET(c.p.g) && !cfgOneshot(c.p.g)) ==> evOut(kEv[c.fd]) && kEv[c.fd] >= 0 && kMods[c.fd] == old(kMods[c.fd]) + 1   // prop C04
+//@   ensures et: cfgET(c.p.g) && !cfgOneshot(c.p.g) ==> kEv[c.fd] == old(kEv[c.fd])                                                       // prop C04
+//@   ensures unreg: old(kEv[c.fd]) < 0 ==> kEv[c.fd] == old(kEv[c.fd])                                                                    // prop C04
+//@   assigns c.isWAdded, kEv[c.fd], kMods[c.fd], allocates
+
 //@ func (*Conn).resetRead
 //@   props C04
-//@   requires c.p != nil && c.p.g != nil
-//@   assigns c.isWAdded, kEv[c.fd], allocates
-//@   trusted
+//@   safety index slice nil div assert panic make lockset
+//@   requires holds(c.mux) && c.p != nil && c.p.g != nil
+//@   ensures noop: old(c.closed || !c.isWAdded) ==> c.isWAdded == old(c.isWAdded) && kEv[c.fd] == old(kEv[c.fd]) && kMods[c.fd] == old(kMods[c.fd])  // prop C04
+//@   ensures flag: old(!c.closed && c.isWAdded) ==> !c.isWAdded                                                                          // prop C04
+//@   ensures disarm: old(!c.closed && c.isWAdded && kEv[c.fd] >= 0) && !(cfgET(c.p.g) && !cfgOneshot(c.p.g)) ==> !evOut(kEv[c.fd]) && kEv[c.fd] >= 0 && kMods[c.fd] == old(kMods[c.fd]) + 1   // prop C04
+//@   ensures et: cfgET(c.p.g) && !cfgOneshot(c.p.g) ==> kEv[c.fd] == old(kEv[c.fd])                                                       // prop C04
+//@   ensures unreg: old(kEv[c.fd]) < 0 ==> kEv[c.fd] == old(kEv[c.fd])                                                                    // prop C04
+//@   assigns c.isWAdded, kEv[c.fd], kMods[c.fd], allocates
 
 //@ func (*Conn).closeWithErrorWithoutLock
 //@   trusted
@@ -139,7 +192,7 @@ package nbio
 
 //@ func (*Conn).Write
 //@   props C01 C17
-//@   safety index slice nil div assert panic make lock
+//@   safety index slice nil div assert panic make lock lockset
 //@   requires Wired(c) && isStream(c) && !holds(c.mux)
 //@   ensures ret: result1 == nil ==> result0 == len(b)                                     // prop C01
 //@   ensures unlocked: !holds(c.mux)                                                        // prop C01
@@ -163,8 +216,8 @@ package nbio
 
 //@ func (*Conn).writev
 //@   props C01 C17
-//@   safety index slice nil div assert panic make
-//@   requires Wired(c) && QueueInv(c) && isStream(c)
+//@   safety index slice nil div assert panic make lockset
+//@   requires holds(c.mux) && Wired(c) && QueueInv(c) && isStream(c)
 //@   ensures ret: result1 == nil ==> result0 == total(in)                                                            // prop C01
 //@   ensures acct: result1 == nil ==> kSent[c.fd] + pend(c) == old(kSent[c.fd]) + old(pend(c)) + total(in)           // prop C01
 //@   ensures order: old(len(c.writeList)) > 0 ==> kSent[c.fd] == old(kSent[c.fd])                                    // prop C01
@@ -190,8 +243,8 @@ package nbio
 
 //@ func (*Conn).newToWriteFile
 //@   props C01 C17
-//@   safety index slice nil div assert panic make
-//@   requires QueueInv(c) && fd > 0 && remain > 0
+//@   safety index slice nil div assert panic make lockset
+//@   requires holds(c.mux) && QueueInv(c) && fd > 0 && remain > 0
 //@   ensures pend: pend(c) == old(pend(c)) + remain                                       // prop C01
 //@   ensures left: c.left == old(c.left)                                                  // prop C17
 //@   ensures inv: QueueInv(c)                                                             // prop C01 C11
@@ -216,17 +269,20 @@ package nbio
 
 //@ func (*Conn).flush
 //@   props C01 C17 C11
-//@   safety index slice nil div assert panic make lock
+//@   safety index slice nil div assert panic make lock lockset
 //@   requires Wired(c) && isStream(c) && !holds(c.mux)
 //@   ensures unlocked: !holds(c.mux)                                                      // prop C01
+//@   ensures rearm: cfgOneshot(c.p.g) && c.gSawQ && !c.closed ==> kMods[c.fd] > c.gMods0   // prop C04
 //@   assigns everything
+//@   at lock#1 ghost { c.gMods0 = kMods[c.fd]; c.gSawQ = !c.closed && len(c.writeList) > 0 && kEv[c.fd] >= 0 }
 //@   loop 1
 //@     invariant holds(c.mux) && !c.closed && Wired(c) && isStream(c) && QueueInv(c) && c.gAcc == kSent[c.fd] + pend(c)
 //@     invariant maxw(c) > 0 ==> c.left <= maxw(c)
+//@     invariant ArmInv(c) && kMods[c.fd] == c.gMods0 && (c.gSawQ ==> kEv[c.fd] >= 0 && c.isWAdded)
 
 //@ func (*Conn).Writev
 //@   props C01 C17
-//@   safety index slice nil div assert panic make lock
+//@   safety index slice nil div assert panic make lock lockset
 //@   requires Wired(c) && isStream(c) && !holds(c.mux)
 //@   ensures ret: result1 == nil ==> result0 == total(in)                                  // prop C01
 //@   ensures unlocked: !holds(c.mux)                                                        // prop C01
@@ -236,9 +292,11 @@ package nbio
 
 // ---- Sendfile: what the call reports as accepted is what it handed to the kernel plus what it queued
 //@ ghost Conn.gSnap : Int
+//@ ghost Conn.gMods0 : Int
+//@ ghost Conn.gSawQ : Bool
 //@ func (*Conn).Sendfile
 //@   props C01 C17
-//@   safety index slice nil div assert panic make lock
+//@   safety index slice nil div assert panic make lock lockset
 //@   requires Wired(c) && isStream(c) && !holds(c.mux)
 //@   ensures ret: result1 == nil && f != nil ==> result0 == c.gAcc - c.gSnap               // prop C01
 //@   ensures errret: result1 != nil && !c.closed ==> result0 == c.gAcc - c.gSnap            // prop C01
@@ -252,3 +310,43 @@ package nbio
 //@     invariant holds(c.mux) && !c.closed && Wired(c) && isStream(c) && QueueInv(c) && c.gAcc == kSent[c.fd] + pend(c)
 //@     invariant dst == c.fd && remain >= 0 && total - remain == c.gAcc - c.gSnap && len(c.writeList) == 0
 //@     invariant maxw(c) > 0 ==> c.left <= maxw(c)
+
+// ---- registration (C04): whatever the open callback did before the descriptor was registered, write interest
+// agrees with the backlog once registration has succeeded
+//@ fieldfunc nbio.Engine.onOpen
+//@   params c
+//@   havoc
+//@   note open callback (engine wrapper + user code): reaches the connection only through its public methods, which preserve the monitor invariant; it cannot register the descriptor
+//@   ensures c.p == old(c.p) && c.fd == old(c.fd) && c.typ == old(c.typ) && c.p.g == old(c.p.g) && c.p.epfd == old(c.p.epfd)
+//@   ensures c.p.g.connsUnix == old(c.p.g.connsUnix) && c.p.g.Config.EpollMod == old(c.p.g.Config.EpollMod) && c.p.g.Config.EPOLLONESHOT == old(c.p.g.Config.EPOLLONESHOT)
+//@   ensures kEv[c.fd] == old(kEv[c.fd]) && !holds(c.mux)
+//@   ensures !c.closed ==> QueueInv(c) && (len(c.writeList) > 0 ==> c.isWAdded)
+//@ fieldfunc nbio.Engine.onUDPListen
+//@   params c
+//@   havoc
+//@   ensures c.p == old(c.p) && c.fd == old(c.fd) && c.typ == old(c.typ) && c.p.g == old(c.p.g) && c.p.epfd == old(c.p.epfd)
+//@   ensures c.p.g.connsUnix == old(c.p.g.connsUnix) && c.p.g.Config.EpollMod == old(c.p.g.Config.EpollMod) && c.p.g.Config.EPOLLONESHOT == old(c.p.g.Config.EPOLLONESHOT)
+//@   ensures kEv[c.fd] == old(kEv[c.fd]) && !holds(c.mux)
+//@   ensures !c.closed ==> QueueInv(c) && (len(c.writeList) > 0 ==> c.isWAdded)
+
+//@ func (*Conn).closeWithError
+//@   trusted
+//@   havoc
+//@   requires !holds(c.mux)
+//@   ensures c.closed && !holds(c.mux)
+
+//@ func (*poller).addConn
+//@   props C04
+//@   safety index slice nil div assert panic make lock lockset
+//@   requires p.g != nil && c != nil && c.fd >= 0 && !holds(c.mux) && kEv[c.fd] < 0
+//@   ensures arm: result == nil && !c.closed ==> kEv[c.fd] >= 0 && ArmInv(c)                 // prop C04
+//@   assigns everything
+
+//@ func (*Conn).ResetPollerEvent
+//@   props C04
+//@   safety index slice nil div assert panic make lock lockset
+//@   requires Wired(c) && !holds(c.mux)
+//@   ensures unlocked: !holds(c.mux)                                                                          // prop C04
+//@   ensures rearm: cfgOneshot(c.p.g) && c.gSawQ ==> kMods[c.fd] > c.gMods0                                   // prop C04
+//@   assigns everything
+//@   at lock#1 ghost { c.gMods0 = kMods[c.fd]; c.gSawQ = !c.closed && kEv[c.fd] >= 0 }
